@@ -117,6 +117,10 @@ class C18(core.Prop):
             arg = d
         else:
             arg = list(ex)
+            # a list, or something that can be read once only (a generator, an iterator over a file's lines)
+            one_shot = case.get('one_shot', len(ex) % 4 == 3 and not case.get('as_bytes'))
+            if one_shot:
+                arg = (s for s in list(ex))
         import random
         st = random.getstate()
         try:
